@@ -91,3 +91,314 @@ Proof.
     repeat split; repeat constructor; simpl; intuition lia.
   - split; [reflexivity|]. intros [|[|[|u]]] v; simpl; try tauto; destruct u; simpl; tauto.
 Qed.
+
+(* -------------------------------------------------------------------------------------------------- *)
+(** * Corollaries for the REAL kernel models (Proofs/EquivarianceProofs.v): the kernel depends only on what the
+    stored matrix DENOTES - not on the order of the stored indices of a row, not on how a weight is split over
+    repeated positions, not on the container it came from.  Structural kernels through their exactness theorems
+    (C11), numerical kernels through the denotation of the sparse product.  The model modules are only Required
+    (their names clash): statements use qualified names such as [Topology.compute_core], [Diffusion.matvec]. *)
+From SKN Require Model.Topology Model.Diffusion Proofs.DiffusionProofs Model.Vote Proofs.VoteProofs Model.PageRank Proofs.PageRankProofs Proofs.EquivarianceProofs.
+Set Warnings "-notation-overridden".
+
+(** 5. Structural kernels of Model/Topology.v and the order of the stored indices (through the exactness
+    theorems of C11).  count_triangles depends on the edge SET only: rows with the same elements - any order,
+    repeated indices - give the same count (and the same clustering coefficient follows). *)
+Theorem count_triangles_row_order_irrelevant (g g' : graph) :
+  same_rows g g' -> Topology.count_triangles g = Topology.count_triangles g'.
+Proof. exact (EquivarianceProofs.EqT.count_triangles_row_order_irrelevant g g'). Qed.
+Print Assumptions count_triangles_row_order_irrelevant.
+
+(** compute_core and count_cliques require duplicate-free rows (a repeated index is counted twice in the
+    degree); on such rows, stored in any order, they return the same labels / counts - although the MinHeap
+    pops, and the ListingBox re-orders, differently. *)
+Theorem core_row_order_irrelevant (g g' : graph) :
+  length g = length g' -> (forall u, Permutation (row g u) (row g' u)) ->
+  (forall u, NoDup (row g u)) -> (forall u v, In v (row g u) -> In u (row g v)) ->
+  Topology.compute_core g' = Topology.compute_core g.
+Proof. exact (EquivarianceProofs.EqT.core_row_order_irrelevant g g'). Qed.
+Print Assumptions core_row_order_irrelevant.
+
+Theorem count_cliques_row_order_irrelevant (g g' : graph) (k : nat) (argsort argsort' : list nat) :
+  length g = length g' -> (forall u, Permutation (row g u) (row g' u)) ->
+  (forall u, NoDup (row g u)) -> (forall u v, In v (row g u) -> In u (row g v)) ->
+  NoDup argsort -> length argsort = length g -> NoDup argsort' -> length argsort' = length g -> 2 <= k ->
+  Topology.count_cliques g' k argsort' = Topology.count_cliques g k argsort.
+Proof. exact (EquivarianceProofs.EqT.count_cliques_row_order_irrelevant g g' k argsort argsort'). Qed.
+Print Assumptions count_cliques_row_order_irrelevant.
+
+(** Non-vacuity: the same graph with shuffled rows (and, for the triangle count, a repeated index). *)
+Example c01_nonvacuous_topology :
+  let g := [[1; 2]; [0; 2]; [0; 1; 3]; [2; 4]; [3]] in
+  let g' := [[2; 1]; [0; 2]; [3; 0; 1]; [4; 2]; [3]] in
+  let g'' := [[2; 1; 2]; [0; 2]; [3; 0; 1; 3]; [4; 2]; [3]] in
+  length g = length g' /\ (forall u, Permutation (row g u) (row g' u)) /\ same_rows g g'' /\
+  Topology.count_triangles g'' = 1 /\ Topology.count_triangles g = 1 /\
+  Topology.compute_core g' = Some [2; 2; 2; 1; 1]%Z /\ Topology.compute_core g = Some [2; 2; 2; 1; 1]%Z /\
+  Topology.count_cliques g' 3 [4; 3; 0; 1; 2] = Ok 1.
+Proof.
+  cbv zeta. split; [reflexivity|]. split; [|split].
+  - intros u. do 5 (destruct u as [|u]; [unfold row; simpl;
+      first [apply Permutation_refl | apply perm_swap
+            | apply (Permutation_cons_app [3] []); apply Permutation_refl
+            | apply Permutation_sym; apply (Permutation_cons_app [0; 1] []); apply Permutation_refl]|]).
+    destruct u; apply Permutation_refl.
+  - split; [reflexivity|].
+    intros u v. do 5 (destruct u as [|u]; [unfold row; simpl; tauto|]). destruct u; simpl; tauto.
+  - repeat split; vm_compute; reflexivity.
+Qed.
+
+(** 6. Heat diffusion, Dirichlet (Model/Diffusion.v) and the vote kernel (Model/Vote.v): the order of the stored
+    entries of a row is invisible. *)
+
+(** The order of the stored entries of a row (unsorted indices) is invisible to the reducing product,
+    to the normalisation (up to [==] on the weights), and hence to both iterations and both [fit]s. *)
+Theorem diffusion_matvec_row_order_irrelevant (rows rows' : list Diffusion.wrow) (v : list Q) :
+  Forall2 (@Permutation (nat * Q)) rows rows' -> Diffusion.matvec rows v = Diffusion.matvec rows' v.
+Proof. exact (EquivarianceProofs.EqC.matvec_row_order_irrelevant rows rows' v). Qed.
+Print Assumptions diffusion_matvec_row_order_irrelevant.
+
+Theorem diffusion_normalize_row_order (rows rows' : list Diffusion.wrow) :
+  Forall2 (@Permutation (nat * Q)) rows rows' ->
+  Forall2 (fun r r' : list (nat * Q) =>
+             exists m, Permutation r m /\
+                       Forall2 (fun e e' : nat * Q => fst e = fst e' /\ (snd e == snd e')%Q) m r')
+          (Diffusion.normalize rows) (Diffusion.normalize rows').
+Proof. exact (EquivarianceProofs.EqC.normalize_row_order rows rows'). Qed.
+Print Assumptions diffusion_normalize_row_order.
+
+Theorem dirichlet_core_row_order_irrelevant (n_iter : nat) (rows rows' : list Diffusion.wrow)
+        (border : list bool) (temps : list Q) :
+  Forall2 (@Permutation (nat * Q)) rows rows' ->
+  Diffusion.dirichlet_core n_iter rows border temps = Diffusion.dirichlet_core n_iter rows' border temps.
+Proof. exact (EquivarianceProofs.EqC.dirichlet_core_row_order_irrelevant n_iter rows rows' border temps). Qed.
+Print Assumptions dirichlet_core_row_order_irrelevant.
+
+Theorem diffusion_core_row_order_irrelevant (n_iter : nat) (alpha : Q) (rows rows' : list Diffusion.wrow)
+        (temps : list Q) :
+  Forall2 (@Permutation (nat * Q)) rows rows' ->
+  Diffusion.diffusion_core n_iter alpha rows temps = Diffusion.diffusion_core n_iter alpha rows' temps.
+Proof. exact (EquivarianceProofs.EqC.diffusion_core_row_order_irrelevant n_iter alpha rows rows' temps). Qed.
+Print Assumptions diffusion_core_row_order_irrelevant.
+
+(** Whole [fit], every input form (square or bipartite, any form of seeds, errors included). *)
+Theorem dirichlet_fit_row_order_irrelevant (n_iter : nat) (m m' : Diffusion.wmat)
+        (values values_row values_col : option Diffusion.seedsrc) (init : option Q) (force_bipartite : bool) :
+  Diffusion.w_ncol m = Diffusion.w_ncol m' ->
+  Forall2 (@Permutation (nat * Q)) (Diffusion.w_rows m) (Diffusion.w_rows m') ->
+  Diffusion.dirichlet_fit n_iter m values values_row values_col init force_bipartite
+  = Diffusion.dirichlet_fit n_iter m' values values_row values_col init force_bipartite.
+Proof. exact (EquivarianceProofs.EqC.dirichlet_fit_row_order_irrelevant n_iter m m' values values_row values_col init force_bipartite). Qed.
+Print Assumptions dirichlet_fit_row_order_irrelevant.
+
+Theorem diffusion_fit_row_order_irrelevant (n_iter : nat) (alpha : Q) (m m' : Diffusion.wmat)
+        (values values_row values_col : option Diffusion.seedsrc) (init : option Q) (force_bipartite : bool) :
+  Diffusion.w_ncol m = Diffusion.w_ncol m' ->
+  Forall2 (@Permutation (nat * Q)) (Diffusion.w_rows m) (Diffusion.w_rows m') ->
+  Diffusion.diffusion_fit n_iter alpha m values values_row values_col init force_bipartite
+  = Diffusion.diffusion_fit n_iter alpha m' values values_row values_col init force_bipartite.
+Proof. exact (EquivarianceProofs.EqC.diffusion_fit_row_order_irrelevant n_iter alpha m m' values values_row values_col init force_bipartite). Qed.
+Print Assumptions diffusion_fit_row_order_irrelevant.
+
+(** The weighted graph of C14 (path with a chord, 4 nodes, seeds 0 and 3 at nodes 0 and 3) with row 1 listed in another order and its entry (1,0) = 2 split into 1/2 + 3/2, stored in
+    two different orders: the transposes (hence the operators of Diffusion.fit) differ as lists. *)
+Example partC_row_order_nonvacuous :
+  let rows : list Diffusion.wrow :=
+    [ [(1, 2%Q)]; [(0, (1 # 2)%Q); (2, 1%Q); (0, (3 # 2)%Q); (3, 1%Q)]; [(1, 1%Q); (3, 3%Q)]; [(1, 1%Q); (2, 3%Q)] ] in
+  let rows' : list Diffusion.wrow :=
+    [ [(1, 2%Q)]; [(3, 1%Q); (0, (3 # 2)%Q); (0, (1 # 2)%Q); (2, 1%Q)]; [(3, 3%Q); (1, 1%Q)]; [(1, 1%Q); (2, 3%Q)] ] in
+  Forall2 (@Permutation (nat * Q)) rows rows' /\ rows <> rows' /\
+  Diffusion.w_rows (Diffusion.transpose {| Diffusion.w_ncol := 4; Diffusion.w_rows := rows |})
+    <> Diffusion.w_rows (Diffusion.transpose {| Diffusion.w_ncol := 4; Diffusion.w_rows := rows' |}) /\
+  Diffusion.diffusion_fit 3 (1 # 2)%Q {| Diffusion.w_ncol := 4; Diffusion.w_rows := rows' |}
+    (Some (Diffusion.SArray [0; -1; -1; 3]%Q)) None None None false
+  = Diffusion.diffusion_fit 3 (1 # 2)%Q {| Diffusion.w_ncol := 4; Diffusion.w_rows := rows |}
+      (Some (Diffusion.SArray [0; -1; -1; 3]%Q)) None None None false /\
+  Diffusion.dirichlet_fit 3 {| Diffusion.w_ncol := 4; Diffusion.w_rows := rows' |}
+    (Some (Diffusion.SArray [0; -1; -1; 3]%Q)) None None None true
+  = Diffusion.dirichlet_fit 3 {| Diffusion.w_ncol := 4; Diffusion.w_rows := rows |}
+      (Some (Diffusion.SArray [0; -1; -1; 3]%Q)) None None None true /\
+  exists out, Diffusion.dirichlet_fit 3 {| Diffusion.w_ncol := 4; Diffusion.w_rows := rows |}
+                (Some (Diffusion.SArray [0; -1; -1; 3]%Q)) None None None true = Diffusion.Ok out.
+Proof.
+  cbv zeta. split; [|split; [|split; [|split; [|split]]]].
+  - constructor; [apply Permutation_refl|]. constructor; [|constructor; [apply perm_swap|constructor; [apply Permutation_refl|constructor]]].
+    apply Permutation_sym.
+    apply perm_trans with (l' := [(0, (3 # 2)%Q); (0, (1 # 2)%Q); (2, 1%Q); (3, 1%Q)]).
+    + apply (Permutation_cons_append [(0, (3 # 2)%Q); (0, (1 # 2)%Q); (2, 1%Q)] (3, 1%Q)).
+    + apply perm_trans with (l' := [(0, (1 # 2)%Q); (0, (3 # 2)%Q); (2, 1%Q); (3, 1%Q)]); [apply perm_swap|].
+      apply perm_skip. apply perm_swap.
+  - intros E. inversion E.
+  - vm_compute. intros E. inversion E.
+  - vm_compute. reflexivity.
+  - vm_compute. reflexivity.
+  - eexists. vm_compute. reflexivity.
+Qed.
+
+(** The vote kernel (classification/vote.pyx, model Model/Vote.v on flat CSR arrays).  For a kernel that
+    clears votes_neigh for every node and reads the weight at the edge position ([clr], [wpos]: the
+    repaired source), the labels after one sweep do not depend on the order in which each row stores its
+    (neighbour, weight) pairs: the arg-max breaks ties by label VALUE (std::set order and strict [>]: the
+    smallest label wins), not by position in the row, and the vote counters are only compared.
+    Same [indptr], same array lengths; each direction transports a run without out-of-bounds access. *)
+Theorem vote_row_order_irrelevant (kv : Vote.kvariant) (indptr indices indices' : list nat)
+        (data data' : list Q) (labels : list Z) (index : list nat) (labels' : list Z) :
+  Vote.clr kv = true -> Vote.wpos kv = true ->
+  length indices = length indices' -> length data = length data' ->
+  (forall i, In i index ->
+     Permutation (Vote.nbrs_weighted indptr indices data i) (Vote.nbrs_weighted indptr indices' data' i)) ->
+  (Vote.vote_update kv indptr indices data labels index = Vote.VOk labels' <->
+   Vote.vote_update kv indptr indices' data' labels index = Vote.VOk labels').
+Proof. exact (EquivarianceProofs.EqC_Vote.vote_row_order_irrelevant kv indptr indices indices' data data' labels index labels'). Qed.
+Print Assumptions vote_row_order_irrelevant.
+
+(** Non-vacuity, with a tie: node 0 has neighbours 2 (label 1) and 3 (label 0) with equal weights, node 1
+    has neighbours 2 and 3 with weights 1 and 5; the rows of nodes 0 and 1 are stored in both orders.
+    The repaired kernel returns the same labels (node 0: tie, smallest label 0 wins in both orders). *)
+Example vote_row_order_nonvacuous :
+  let indptr := [0; 2; 4; 4; 4] in
+  let labels := [-1; -1; 1; 0]%Z in
+  let indices := [2; 3; 2; 3] in   let data := [1; 1; 1; 5]%Q in
+  let indices' := [3; 2; 3; 2] in  let data' := [1; 1; 5; 1]%Q in
+  (forall i, In i [0; 1] ->
+     Permutation (Vote.nbrs_weighted indptr indices data i) (Vote.nbrs_weighted indptr indices' data' i)) /\
+  Vote.vote_update Vote.repaired_kernel indptr indices data labels [0; 1] = Vote.VOk [0; 0; 1; 0]%Z /\
+  Vote.vote_update Vote.repaired_kernel indptr indices' data' labels [0; 1] = Vote.VOk [0; 0; 1; 0]%Z.
+Proof.
+  cbv zeta. split; [|split; vm_compute; reflexivity].
+  intros i [E|[E|[]]]; subst i; vm_compute; apply perm_swap.
+Qed.
+
+(** The hypotheses [clr] / [wpos] are needed: the kernel BEFORE the repair (votes_neigh never cleared,
+    weight read at the neighbour's node index) pairs the labels of the second node with the weights
+    gathered for the first one, so the stored order of row 0 changes the label of node 1. *)
+Example vote_row_order_matters_legacy :
+  let indptr := [0; 2; 4; 4; 4] in
+  let labels := [-1; -1; 0; 1]%Z in
+  let data := [1; 1; 1; 5]%Q in
+  (forall i, In i [0; 1] ->
+     Permutation (Vote.nbrs_weighted indptr [2; 3; 2; 3] data i)
+                 (Vote.nbrs_weighted indptr [3; 2; 2; 3] data i)) /\
+  Vote.vote_update Vote.legacy_kernel indptr [2; 3; 2; 3] data labels [0; 1] = Vote.VOk [1; 1; 0; 1]%Z /\
+  Vote.vote_update Vote.legacy_kernel indptr [3; 2; 2; 3] data labels [0; 1] = Vote.VOk [1; 0; 0; 1]%Z.
+Proof.
+  cbv zeta. split; [|split; vm_compute; reflexivity].
+  intros i [E|[E|[]]]; subst i; vm_compute; [apply perm_swap|apply Permutation_refl].
+Qed.
+
+(** 7. A kernel depends only on the DENOTATION of what is stored.  The sparse product every iterative
+    algorithm is built from ([matvec]: accumulate value * x[column] over the stored entries of the row, in
+    stored order) gives the same result, entry by entry, on two stored matrices with pointwise equal
+    denotations - whatever the order of the stored entries, repeated positions (summed), explicit zeros. *)
+Theorem matvec_depends_on_denotation (n : nat) (a a' : wrows) (x : list Q) :
+  wf_rows n a -> wf_rows n a' -> length a = length a' ->
+  (forall i j, (entry a i j == entry a' i j)%Q) ->
+  Forall2 Qeq (matvec a x) (matvec a' x).
+Proof. exact (EquivarianceProofs.matvec_depends_on_denotation n a a' x). Qed.
+Print Assumptions matvec_depends_on_denotation.
+
+(** ... hence on the CSR matrices check_format builds from any two accepted containers of the same matrix. *)
+Theorem matvec_container_independent (c1 c2 : container) (x : list Q) :
+  wf_shape c1 -> wf_shape c2 -> c_nrow c1 = c_nrow c2 -> c_ncol c1 = c_ncol c2 ->
+  (forall i j, (den c1 i j == den c2 i j)%Q) ->
+  wf_wmat (to_csr c1) -> wf_wmat (to_csr c2) ->
+  Forall2 Qeq (matvec (snd (to_csr c1)) x) (matvec (snd (to_csr c2)) x).
+Proof. exact (EquivarianceProofs.matvec_container_independent c1 c2 x). Qed.
+Print Assumptions matvec_container_independent.
+
+(** A REAL kernel end to end: the iteration of Dirichlet.fit (Model/Diffusion.v: row normalisation with the
+    pseudo-inverse of the row norms, product, clamping of the seeds; the model stores reduced fractions) on
+    two stored matrices with non-negative weights ([Diffusion.wf_rows n]: column indices < n, weights >= 0)
+    and equal denotations returns literally the same values after every number of iterations.  (Non-negativity
+    is needed: the row NORM sums |value| over the stored entries, so (j, 1), (j, -1) and nothing stored differ.) *)
+Theorem dirichlet_depends_on_denotation (n k : nat) (rows rows' : wrows) (border : list bool) (temps : list Q) :
+  Diffusion.wf_rows n rows -> Diffusion.wf_rows n rows' -> length rows = length rows' ->
+  (forall i j, (entry rows i j == entry rows' i j)%Q) ->
+  Diffusion.dirichlet_core k rows border temps = Diffusion.dirichlet_core k rows' border temps.
+Proof. exact (EquivarianceProofs.EqDen.dirichlet_depends_on_denotation n k rows rows' border temps). Qed.
+Print Assumptions dirichlet_depends_on_denotation.
+
+Theorem dirichlet_container_independent (n k : nat) (c1 c2 : container) (border : list bool) (temps : list Q) :
+  wf_shape c1 -> wf_shape c2 -> c_nrow c1 = c_nrow c2 ->
+  (forall i j, (den c1 i j == den c2 i j)%Q) ->
+  Diffusion.wf_rows n (snd (to_csr c1)) -> Diffusion.wf_rows n (snd (to_csr c2)) ->
+  Diffusion.dirichlet_core k (snd (to_csr c1)) border temps =
+  Diffusion.dirichlet_core k (snd (to_csr c2)) border temps.
+Proof. exact (EquivarianceProofs.EqDen.dirichlet_container_independent n k c1 c2 border temps). Qed.
+Print Assumptions dirichlet_container_independent.
+
+(** Non-vacuity: the path 0 - 1 - 2 with weights 2 and 1 as a dense array, as COO triples in arbitrary order
+    with the weight 2 split over two triples, and as CSR with unsorted rows and a split entry: hypotheses hold,
+    denotations agree, the stored rows differ, the Dirichlet iterates are equal and not trivial. *)
+Example c01_nonvacuous_denotation :
+  let d := Dense [[0; 2; 0]; [2; 0; 1]; [0; 1; 0]]%Q in
+  let c := Coo 3 3 [(2, 1, 1%Q); (0, 1, 1%Q); (1, 0, 2%Q); (1, 2, 1%Q); (0, 1, 1%Q)] in
+  let s := Csr 3 [[(1, 2%Q)]; [(2, 1%Q); (0, 1%Q); (0, 1%Q)]; [(1, 1%Q)]] in
+  let border := [true; false; true] in
+  let temps := [1; 0; 3]%Q in
+  (wf_shape d /\ wf_shape c /\ wf_shape s) /\
+  (Diffusion.wf_rows 3 (snd (to_csr d)) /\ Diffusion.wf_rows 3 (snd (to_csr c)) /\
+   Diffusion.wf_rows 3 (snd (to_csr s))) /\
+  (forall i j, (den d i j == den s i j)%Q) /\
+  snd (to_csr s) <> snd (to_csr d) /\
+  Diffusion.dirichlet_core 2 (snd (to_csr d)) border temps = [1; 5 # 3; 3]%Q /\
+  Diffusion.dirichlet_core 2 (snd (to_csr c)) border temps = [1; 5 # 3; 3]%Q /\
+  Diffusion.dirichlet_core 2 (snd (to_csr s)) border temps = [1; 5 # 3; 3]%Q.
+Proof.
+  cbv zeta. split; [|split; [|split; [|split]]].
+  - cbv [wf_shape wf_rows dense_ncol]. simpl. repeat split; repeat constructor; simpl; lia.
+  - split; [|split]; intros r e Hr He; vm_compute in Hr;
+      repeat (destruct Hr as [<-|Hr]; [vm_compute in He;
+        repeat (destruct He as [<-|He]; [split; [simpl; lia|unfold Qle; simpl; lia]|]); contradiction|]);
+      contradiction.
+  - intros i j.
+    do 3 (destruct i as [|i]; [do 3 (destruct j as [|j]; [vm_compute; reflexivity|]);
+                               destruct j; vm_compute; reflexivity|]).
+    destruct i, j; vm_compute; reflexivity.
+  - vm_compute. discriminate.
+  - repeat split; vm_compute; reflexivity.
+Qed.
+
+(** PageRank (Model/PageRank.v).  For two stored graphs with column indices in range and non-negative weights
+    ([good_graph]) whose rows have pointwise equal denotations ([PageRank.entry r j] = sum of the stored weights of
+    row r at column j), RandomSurferOperator._matvec, the whole power iteration (solver 'piteration': every iterate,
+    the early exit included) and the Horner solver ('RH') return literally the same vectors. *)
+Theorem pagerank_operator_depends_on_denotation (g g' : PageRank.wgraph) (alpha : Q) (y x : list Q) :
+  PageRankProofs.good_graph g -> PageRankProofs.good_graph g' -> length g = length g' ->
+  (forall i j, (PageRank.entry (PageRank.wrow_of g i) j == PageRank.entry (PageRank.wrow_of g' i) j)%Q) ->
+  PageRank.surfer_matvec g alpha y x = PageRank.surfer_matvec g' alpha y x.
+Proof. exact (fun Hg Hg' HL Hd => EquivarianceProofs.EqDenPR.surfer_matvec_den g g' Hg Hg' HL Hd alpha y x). Qed.
+Print Assumptions pagerank_operator_depends_on_denotation.
+
+Theorem piteration_depends_on_denotation (g g' : PageRank.wgraph) (alpha : Q) (y : list Q) (n_iter : nat) (tol : Q) :
+  PageRankProofs.good_graph g -> PageRankProofs.good_graph g' -> length g = length g' ->
+  (forall i j, (PageRank.entry (PageRank.wrow_of g i) j == PageRank.entry (PageRank.wrow_of g' i) j)%Q) ->
+  PageRank.piteration g alpha y n_iter tol = PageRank.piteration g' alpha y n_iter tol.
+Proof. exact (fun Hg Hg' HL Hd => EquivarianceProofs.EqDenPR.piteration_den g g' Hg Hg' HL Hd alpha y n_iter tol). Qed.
+Print Assumptions piteration_depends_on_denotation.
+
+Theorem rh_depends_on_denotation (g g' : PageRank.wgraph) (alpha : Q) (y : list Q) (n_iter : nat) :
+  PageRankProofs.good_graph g -> PageRankProofs.good_graph g' -> length g = length g' ->
+  (forall i j, (PageRank.entry (PageRank.wrow_of g i) j == PageRank.entry (PageRank.wrow_of g' i) j)%Q) ->
+  PageRank.rh g alpha y n_iter = PageRank.rh g' alpha y n_iter.
+Proof. exact (fun Hg Hg' HL Hd => EquivarianceProofs.EqDenPR.rh_den g g' Hg Hg' HL Hd alpha y n_iter). Qed.
+Print Assumptions rh_depends_on_denotation.
+
+(** Non-vacuity: a graph with a sink in canonical form, and with unsorted rows and a weight split over two stored
+    entries; three power-iteration steps give the same non-trivial vector. *)
+Example c01_nonvacuous_pagerank_denotation :
+  let g : PageRank.wgraph := [[(1, 2%Q); (2, 1%Q)]; [(2, 3%Q)]; []] in
+  let g' : PageRank.wgraph := [[(2, 1%Q); (1, 1%Q); (1, 1%Q)]; [(2, 1%Q); (2, 2%Q)]; []] in
+  let y := [1 # 2; 1 # 4; 1 # 4]%Q in
+  PageRankProofs.good_graph g /\ PageRankProofs.good_graph g' /\ g <> g' /\
+  (forall i j, (PageRank.entry (PageRank.wrow_of g i) j == PageRank.entry (PageRank.wrow_of g' i) j)%Q) /\
+  PageRank.piteration g (1 # 2) y 3 0 = PageRank.piteration g' (1 # 2) y 3 0 /\
+  PageRank.piteration g (1 # 2) y 3 0 <> y.
+Proof.
+  cbv zeta. split; [split; reflexivity|]. split; [split; reflexivity|]. split; [discriminate|]. split.
+  - intros i j.
+    do 3 (destruct i as [|i]; [do 3 (destruct j as [|j]; [vm_compute; reflexivity|]);
+                               destruct j; vm_compute; reflexivity|]).
+    destruct i, j; vm_compute; reflexivity.
+  - split; vm_compute; [reflexivity|discriminate].
+Qed.
